@@ -3,8 +3,11 @@
 package tax
 
 import (
+	"context"
+
 	"github.com/invopop/gobl/cbc"
 	"github.com/invopop/gobl/internal/vrt"
+	"github.com/invopop/gobl/l10n"
 )
 
 // C18 (leaf rules): what the extension rule accepts is what the published definition files allow.
@@ -83,4 +86,43 @@ func H_C18_ExtensionValues() {
 func H_C18_UndefinedKey() {
 	err := Extensions{"zz-not-defined-key": "x"}.Validate()
 	vrt.Assert(err != nil, "undefined-extension-key-rejected")
+}
+
+// H_C18_ComboKeys: category and rate keys of a tax combo are accepted only if the regime that applies - the
+// combo's own country when it names one, otherwise the document's - defines them; with no regime, a rate key
+// is refused. (Struct validation runs through the engine's model of the validation library's dispatcher.)
+func H_C18_ComboKeys() {
+	vrt.Unwind(5000)
+	ctxRegimes := []l10n.Code{"", "ES", "PT"}
+	countries := []l10n.TaxCountryCode{"", "ES", "FR", "JP"} // JP: no regime published
+	cats := []cbc.Code{"VAT", "IRPF", "XXX"}
+	rates := []cbc.Key{"", "standard", "pro", "bogus"}
+	cr := ctxRegimes[vrt.Choice("doc-regime", len(ctxRegimes))]
+	c := &Combo{
+		Country:  countries[vrt.Choice("country", len(countries))],
+		Category: cats[vrt.Choice("cat", len(cats))],
+		Rate:     rates[vrt.Choice("rate", len(rates))],
+	}
+	ctx := context.Background()
+	var docDef *RegimeDef
+	if cr != "" {
+		docDef = RegimeDefFor(cr)
+		ctx = docDef.WithContext(ctx)
+	}
+	err := c.ValidateWithContext(ctx)
+	// the regime that applies
+	eff := docDef
+	if c.Country != "" {
+		eff = RegimeDefFor(c.Country.Code())
+	}
+	want := false
+	if eff == nil {
+		want = c.Rate == ""
+	} else if cd := eff.CategoryDef(c.Category); cd != nil {
+		want = c.Rate == "" || cd.RateDef(c.Rate) != nil
+	}
+	vrt.Assert(err != nil || want, "accepted-combo-keys-are-defined-in-the-applicable-regime")
+	if cr != "PT" { // the Portuguese regime adds its own requirements (region extension) on top of the key rules
+		vrt.Assert(err == nil || !want, "defined-combo-keys-are-accepted")
+	}
 }
